@@ -22,7 +22,7 @@ CODES = {1: "malformed record", 201: "children of a sum node do not have the doc
          247: "irregular node is regular/TU", 248: "graphicness flag positive but not graphic", 249: "graphicness flag negative but graphic",
          250: "cographicness flag positive but not cographic", 251: "cographicness flag negative but cographic", 252: "graph/planar node is not graphic",
          253: "cograph/planar node is not cographic", 254: "flags of an inner node contradict the flags of its children", 260: "node matrix malformed or outside its field", 261: "number of links differs from number of children",
-         262: "child shape / field inconsistent with the maps", 263: "wrong number of children for the node type", 264: "child of a pivot node has a forbidden type",
+         262: "child shape / field inconsistent with the maps", 263: "wrong number of children for the node type",
          265: "leaf node with children", 270: "root matrix differs from the input"}
 STRUCT = set(range(201, 237)) | {260, 261, 262, 263, 264, 265, 270}
 FLAGS = set(range(240, 255))
